@@ -267,7 +267,8 @@ impl CelsData<RawPixels> {
         }
         let validate_ref = |id: CelId| {
             let index = id.frame as usize * num_layers + id.layer as usize;
-            if is_linkable_cel[index] {
+            let in_range = (id.frame as u32) < num_frames && (id.layer as usize) < num_layers;
+            if in_range && is_linkable_cel[index] {
                 Ok(())
             } else {
                 Err(AsepriteParseError::InvalidInput(format!(
